@@ -44,9 +44,9 @@ def run(chk):
     # binding demonstration rides along
     base = next(x for x in recs if x["t"]["err"] == "" and x["p"]["err"] == "" and x["o"]["HQ"] == "POLE" and len(x["p"]["mugrid"]) >= 1)
     c = [copy.deepcopy(base) for _ in range(4)]
-    c[0]["t"]["order"][0] += 1
-    c[1]["p"]["mugrid"][0][1] += 1
-    c[2]["p"]["method"] = "truncated" if c[2]["p"]["method"] != "truncated" else "iterate-exact"
+    c[0]["t"]["order"][0] = c[0]["o"]["PTO"] + 5
+    c[1]["p"]["mugrid"][0][1] = 9
+    c[2]["p"]["method"] = "bogus"
     c[3]["copyBad"] = ["XIF"]
     expect = ["C41:order", "C41:evolution-points", "C41:configs", "C41:copied-field:XIF"]
     n = len(recs)
